@@ -151,8 +151,14 @@ pub fn eval(expr: Node) -> Result<Decimal, Box<dyn error::Error>> {
             let b = eval(*expr2)?;
             let mut x = Decimal::ZERO;
             while n > Decimal::new(1, 0) {
+                let log_n = checked(n.checked_log10())?;
+                let log_b = checked(b.checked_log10())?;
+                let next = checked(log_n.checked_div(log_b))?.floor();
+                if next >= n || x >= Decimal::new(64, 0) {
+                    return Err("The iterated logarithm does not converge for this base".into());
+                }
                 x += Decimal::new(1, 0);
-                n = (n.log10() / b.log10()).floor();
+                n = next;
             }
             Ok(x)
         }
